@@ -118,10 +118,13 @@ impl RcvdJournal {
     }
 
     fn on_rcvd_ack(&mut self, ack_frame: &AckFrame) {
-        let acked_pns: std::collections::HashSet<_> = ack_frame
+        // The ranges of an ACK frame are 62-bit values chosen by the peer: test the few packets of ours
+        // that carried an ACK frame against the ranges, never enumerate the packet numbers of a range.
+        let acked_pns: std::collections::HashSet<_> = self
+            .packet_include_ack
             .iter()
-            .flat_map(|range| range.clone())
-            .filter(|pn| self.packet_include_ack.contains(pn))
+            .copied()
+            .filter(|pn| ack_frame.iter().any(|range| range.contains(pn)))
             .collect();
 
         self.packet_include_ack.retain(|pn| !acked_pns.contains(pn));
